@@ -12,7 +12,7 @@ RULE = ('case = list of 0-6 parts (text/file interleaved; names and file names =
         'for a text and a file part; text values any text; file content adversarial bytes; content types with/without '
         'parameters), boundary over bchars extended until CRLF--boundary does not occur in any value (construction, no '
         'rejection), max_memfile_size = bytes of header blocks + text values + slack (file content often larger, so the '
-        'body spills), Content-Length or chunked framing, read-fragmentation caps. Oracle: all uploads read piecewise in turns (with a read of request.body in between) give their own bytes; dict(forms), files (name, '
+        'body spills), Content-Length or chunked framing (chunk sizes in lower- or upper-case hex, zero-padded or not), read-fragmentation caps. Oracle: all uploads read piecewise in turns (with a read of request.body in between) give their own bytes; every upload moved around like a file (absolute / end-relative / current-relative seeks, also beyond its own start and end) only ever delivers its own bytes; dict(forms), files (name, '
         'raw_filename, content type, file.read()), POST (union, submission order) equal the generated list. Non-trivial = '
         '>=1 file and >=1 text part, or a separator character inside a quoted parameter, or a repeated name, or data '
         'containing a proper delimiter prefix; distinct by case hash.')
@@ -69,6 +69,7 @@ def form_case(draw):
         'pattern': draw(st.one_of(st.just([]), st.lists(st.integers(1, 9), min_size=1, max_size=6),
                                   st.lists(st.integers(1, 200), min_size=1, max_size=6))),
         'epilogue': draw(st.sampled_from([b'\r\n', b'\r\n', b''])),
+        'hex_upper': draw(st.sampled_from([0, 0, 1, 1, 2, 3])),
     }
 
 
@@ -122,7 +123,8 @@ def check_case(ctx, case):
     mem = max(1, hdr_bytes + text_bytes + case['slack'])
     wire = None
     if case['chunked'] is not None:
-        wire, layout = encode_chunked(body, case['chunked'])
+        # (chunk sizes are HEXDIG: upper- or lower-case letters, optionally zero-padded)
+        wire, layout = encode_chunked(body, case['chunked'], [{'upper': bool(case.get('hex_upper')), 'zeros': (case.get('hex_upper') or 0) // 2}])
         # stated precondition of the chunked scanner (C05): buffer >= longest chunk-size line
         mem = max(mem, max(e - s for k, s, e in layout if k in ('size', 'last')))
     app = ombott.Ombott({'max_memfile_size': mem})
@@ -154,6 +156,21 @@ def check_case(ctx, case):
             if not progressed:
                 break
         seen['interleaved'] = [(u.name, u.raw_filename, acc[i]) for i, u in enumerate(ups)]
+        # then: every upload is moved around like a file (absolute, relative to its end / to the current position, also beyond its own start and end)
+        probes = []
+        for i, u in enumerate(ups):
+            n = len(acc[i])
+            for off, whence, warm in ((0, 0, 0), (2, 0, 0), (n + 9, 0, 0), (0, 2, 0), (-3, 2, 0), (-n, 2, 0), (-(n + 5), 2, 0), (-(n + 700), 2, 0), (-1, 1, 2), (-(n + 7), 1, 2),
+                                      (-(n + 3000), 1, 1), (3, 1, 1)):
+                try:
+                    u.file.seek(0)
+                    u.file.read(warm)
+                    u.file.seek(off, whence)
+                    probes.append((i, off, whence, warm, u.file.read()))
+                except (ValueError, OSError):
+                    probes.append((i, off, whence, warm, None))       # refusing to move before the start is what real files do
+            u.file.seek(0)
+        seen['probes'] = probes
         seen['forms'] = observe(rq.forms)
         seen['files'] = observe(rq.files)
         seen['post'] = observe(rq.POST)
@@ -175,6 +192,23 @@ def check_case(ctx, case):
     want_inter = [(p['name'], p['filename'], p['value']) for p in parts if p.get('filename') is not None]
     if sorted(seen.get('interleaved') or [], key=repr) != sorted(want_inter, key=repr):
         raise CheckFailure(f'uploads read piecewise in turns differ from what was sent: boundary={boundary!r}\n got  {seen.get("interleaved")!r}\n want {want_inter!r}')
+    contents = [p['value'] for p in parts if p.get('filename') is not None]
+    by_upload = {}
+    for (nm, fn, data) in seen.get('interleaved') or []:
+        by_upload.setdefault(len(by_upload), data)
+    for i, off, whence, warm, got in seen.get('probes') or []:
+        data = by_upload[i]
+        n = len(data)
+        target = off if whence == 0 else (n + off if whence == 2 else min(warm, n) + off)
+        if got is None:
+            if target >= 0:
+                raise CheckFailure(f'upload {i} ({n} bytes): seek({off}, {whence}) after reading {warm} bytes raised although the target {target} is not before the start')
+            continue
+        want_tail = data[max(0, target):]
+        if got != want_tail:
+            raise CheckFailure(f'upload {i} ({n} bytes): seek({off}, {whence}) after reading {warm} bytes, then read() gave {got[:60]!r} ({len(got)} bytes); the upload\'s own content from '
+                               f'offset {max(0, target)} is {want_tail[:60]!r} ({len(want_tail)} bytes): bytes outside the upload were delivered')
+        ctx.count('upload_seek_probes')
     forms, files, post = expected_of(parts)
     for what, want in (('forms', forms), ('files', files), ('post', post)):
         got = seen.get(what)
